@@ -15,10 +15,42 @@ type step struct {
 	Cond  string      `json:"cond,omitempty"`
 	Must  bool        `json:"must,omitempty"` // await: by then the answer was sent, the call has to return
 	Inv   *inviteSpec `json:"invite,omitempty"`
+	// join / rejoin: the options passed to the call
+	Opts *joinOpts `json:"options,omitempty"`
 	// presences from the room: the <item/> attributes and status codes
 	Aff   string `json:"affiliation,omitempty"`
 	Role  string `json:"role,omitempty"`
 	Codes []int  `json:"status,omitempty"`
+}
+
+// joinOpts are the muc.Option values of a join.
+type joinOpts struct {
+	Nick     string `json:"nick,omitempty"` // same | different (from the address's resourcepart)
+	Password string `json:"password,omitempty"`
+	History  string `json:"history,omitempty"` // max | bytes | since | duration
+}
+
+func genOpts(r *rand.Rand) *joinOpts {
+	if r.Intn(3) != 0 {
+		return nil
+	}
+	o := &joinOpts{}
+	switch r.Intn(4) {
+	case 0:
+		o.Nick = "same"
+	case 1, 2:
+		o.Nick = "different"
+	}
+	if r.Intn(3) == 0 {
+		o.Password = "cauldronburn"
+	}
+	if r.Intn(3) == 0 {
+		o.History = []string{"max", "bytes", "since", "duration"}[r.Intn(4)]
+	}
+	if *o == (joinOpts{}) {
+		o.Password = "cauldronburn"
+	}
+	return o
 }
 
 var (
@@ -117,7 +149,11 @@ func (s *story) launch(op string) string {
 	s.ncall++
 	s.nreq++
 	l := fmt.Sprintf("r%dc%d", s.room, s.ncall)
-	s.add(step{Op: op, Label: l})
+	st := step{Op: op, Label: l}
+	if op != "leave" {
+		st.Opts = genOpts(s.r)
+	}
+	s.add(st)
 	return l
 }
 
@@ -320,6 +356,44 @@ func genStory(r *rand.Rand, room int) *story {
 	for e := 0; e < episodes; e++ {
 		in := s.joinPhase("join")
 		s.hasCh = true
+		if in && r.Intn(4) == 0 {
+			// Client.Join again (and again) for the occupant that is in the room:
+			// every call returns its own Channel value for the same address.  Then
+			// the occupant goes out and another join is refused or abandoned: all
+			// the channels ever returned must report not joined.
+			s.shape = append(s.shape, 'D')
+			for k := 0; k <= r.Intn(2); k++ {
+				l := s.launch("join")
+				s.add(step{Op: "seen", Label: l})
+				s.add(step{Op: "self"})
+				s.add(step{Op: "await", Label: l, Must: true})
+				if r.Intn(2) == 0 {
+					s.add(step{Op: "barrier"})
+				}
+			}
+			if r.Intn(2) == 0 {
+				l := s.launch("leave")
+				s.add(step{Op: "seen", Label: l})
+				s.add(step{Op: "unavail"})
+				s.add(step{Op: "await", Label: l, Must: true})
+			} else {
+				s.add(step{Op: "kick"})
+			}
+			s.add(step{Op: "barrier"})
+			l := s.launch("join")
+			s.add(step{Op: "seen", Label: l})
+			if r.Intn(2) == 0 {
+				s.add(step{Op: "barrier"}) // sampled while the new join is merely requested
+			}
+			if r.Intn(2) == 0 {
+				s.add(step{Op: "error", Label: l, Cond: roomErrors[r.Intn(len(roomErrors))][1]})
+			} else {
+				s.add(step{Op: "cancel", Label: l})
+			}
+			s.add(step{Op: "await", Label: l, Must: true})
+			s.add(step{Op: "barrier"})
+			in = false
+		}
 		if in {
 			in = s.inRoom()
 		}
